@@ -375,7 +375,7 @@ pub fn run(run: &mut Run) {
         0u8..=u8::MAX,
         u8_codec,
     );
-    let n = run.cases(60_000, 3_000_000);
+    let n = run.cases(300_000, 12_000_000);
     run.sub(
         "dr7",
         "Dr7Value: from_bits accepts exactly values inside flags ∪ bits 16-31; for all 4 registers x 4 conditions x 4 sizes x generated flag subsets / field contents: setting one field changes exactly its two bits (16+4n / 18+4n) and reads back, flag operations leave the fields alone; BreakpointCondition/Size::from_bits and BreakpointSize::new on edge-biased u64",
@@ -383,7 +383,7 @@ pub fn run(run: &mut Run) {
         (prop_oneof![any::<u64>().prop_map(|x| x & DR7_VALID), u64_edge(), any::<u64>()], 0u8..4, 0u8..4, 0u8..4, prop_oneof![0u64..10, u64_edge()]),
         dr7_case,
     );
-    let n = run.cases(40_000, 2_000_000);
+    let n = run.cases(200_000, 8_000_000);
     run.sub(
         "selector_error_code",
         "SelectorErrorCode::new accepts exactly <= 0xFFFF; external = bit 0, table = bits 1-2, index = bits 3-15; non-trivial = adjacent to the accept/reject boundary",
